@@ -297,7 +297,7 @@ WATCHER_DEFAULTS = dict(np=1, G=1.0, W=0.0, singleton=False, respawn=True, autos
 
 class Sim(object):
     def __init__(self, watchers, check_delay=1.0, warmup_delay=0.0, record_state=True, sockets=None,
-                 config_file=None, file_mode=False):
+                 config_file=None, file_mode=False, endpoint_owner=None):
         """watchers: list of dicts {name, np, G, W, singleton, respawn, hooks:{name:(outcome,ignore)}...}"""
         global CUR
         CUR = self
@@ -330,6 +330,7 @@ class Sim(object):
         self._probing = False
         self._all_watchers = []
         self.sock_ready = False       # a connection is waiting on a managed socket (on_demand watchers)
+        self.endpoint_owner = endpoint_owner      # endpoint-owner mode: ipc endpoint owned by this user
         self.config_file = config_file
         self.file_mode = bool(file_mode)
         self.file_specs = None        # what the configuration file says now (file mode)
@@ -448,9 +449,10 @@ class Sim(object):
 
     def _build(self):
         ws = [self.make_watcher(s) for s in self.wspecs]
-        self.arb = circus.arbiter.Arbiter(ws, "sim://ctrl", "sim://pub", check_delay=self.check_delay,
+        self.arb = circus.arbiter.Arbiter(ws, "ipc:///nonexistent/sim-ctrl" if self.endpoint_owner else "sim://ctrl",
+                                          "sim://pub", check_delay=self.check_delay,
                                           context=FakeContext(self), loop=self.io,
-                                          warmup_delay=self.warmup_delay)
+                                          warmup_delay=self.warmup_delay, endpoint_owner=self.endpoint_owner)
         if any(sp.get("on_demand") for sp in self.wspecs):
             self.arb.sockets["sim"] = FakeCircusSocket("sim", 1000)
         self.rec("init", cfg=self.header())
@@ -473,6 +475,7 @@ class Sim(object):
 
     def header(self):
         return {"fm": bool(self.file_mode), "file": self.file_records() if self.file_mode else [],
+                "eom": bool(self.endpoint_owner),
                 "cd": int(round(self.check_delay * 1000)) if self.check_delay > 0 else -1,
                 "wg": int(round(self.warmup_delay * 1000)),
                 "cdt": int(round(self.check_delay * 10)) if self.check_delay > 0 else -1,
@@ -817,6 +820,9 @@ class Sim(object):
              "addsing": bool((pr.get("options") or {}).get("singleton")) if isinstance(pr.get("options"), dict) else False}
         q["opts"] = self._set_opts(pr.get("options")) if cmd == "set" else []
         q["rovalid"] = _ro_valid(cmd, pr)
+        ouid = (pr.get("options") or {}).get("uid") if isinstance(pr.get("options"), dict) else None
+        q["adduid"] = "none" if ouid is None else ("owner" if self.endpoint_owner is not None and ouid == self.endpoint_owner
+                                                   else "other")
         q["file"] = self.file_records() if cmd == "reloadconfig" else []
         q["matches"] = []
         if q["pattern"]:
